@@ -469,17 +469,28 @@ def tasks(tier, seed):
 # ---------------------------------------------------------------------------------------
 
 
-def _real_run(cond_factory, T=40):
+_SCENE_CACHE = {}
+_RUN_CACHE = {}
+
+
+def _real_run(cond_factory, T=40, cache_key=None):
     """float32 / 32-bit integers (the package default): under jax_enable_x64 the detector condition's
     dynamic_slice start indices mix int32 and int64 and JAX rejects them"""
     import jax.numpy as jnp
 
     import fdtdx
 
-    cfg, oc, arrays, key = P5._real_scene(T, None, dirty=False, dtype=jnp.float32)
+    if cache_key is not None and cache_key in _RUN_CACHE:
+        return _RUN_CACHE[cache_key]
+    if T not in _SCENE_CACHE:
+        _SCENE_CACHE[T] = P5._real_scene(T, None, dirty=False, dtype=jnp.float32)
+    cfg, oc, arrays, key = _SCENE_CACHE[T]
     cond = cond_factory(cfg)
     t, arr = fdtdx.run_fdtd(arrays, oc, cfg, key, stopping_condition=cond, show_progress=False)
-    return int(t), arr, cfg, oc, arrays, key
+    out = (int(t), arr, cfg, oc, arrays, key)
+    if cache_key is not None:
+        _RUN_CACHE[cache_key] = out
+    return out
 
 
 def replay(key, obligation, witness):
@@ -521,7 +532,7 @@ def _replay(key, obligation, witness):
                 # threshold 0: `distance < 0` is never true, the trace never counts as converged
                 return DetectorConvergenceCondition(detector_name="energy", wave_character=WaveCharacter(period=(spp + 0.2) * cfg.time_step_duration), prev_periods=prev, threshold=0.0, min_steps=mn, max_steps=mx)
 
-            t, arr, cfg, oc, arrays, k = _real_run(fac, T)
+            t, arr, cfg, oc, arrays, k = _real_run(fac, T, cache_key=("det", spp, prev, mn, mx))
             details.append(f"DetectorConvergenceCondition(spp={spp}, prev_periods={prev}, threshold=0, min_steps={mn}, max_steps={mx}), time_steps_total={cfg.time_steps_total}: real run halted at step {t}")
             if t > mx:
                 bad = True
